@@ -56,7 +56,7 @@ theorem wf_exec (env : Env) (wf : WF env) (x : Id → Nat → Outcome) : WF { en
 
 theorem loopStep_uniform (env : Env) (wf : WF env) (s : State E) (hu : UniformOn env.owned s.P) :
     UniformOn env.owned (loopStep env s).P := by
-  have hsub : ∀ i ∈ (cfgOf env s).selected, i ∈ (cfgOf env s).owned := fun i hi => wf.sub _ i hi
+  have hsub : ∀ i ∈ (cfgOf env s).selected, i ∈ (cfgOf env s).owned := fun i hi => selOf_sub env wf s i hi
   have hup : UniformOn env.owned (pass env s).P' :=
     uniform_preserved (cfgOf env s) s.P s.now s.now env.exec hsub hu
   rcases loopStep_form env s with h | ⟨_, h⟩ | h | ⟨_, h⟩ | h | ⟨_, _, _, h⟩ <;> rw [h]
@@ -93,7 +93,7 @@ theorem not_handler_noop (s : State E) (hm : s.marked = false) (h : isHandler s 
       simp [hm, hb, this, C14.reasonStr] at h; exact absurd (by decide) h
 
 /-- an open pass with a handler reason always leaves an event pending: a PATCH or a sleep + touch -/
-theorem open_handle_pending (env : Env) (s : State E) (hh : isHandler s = true)
+theorem open_handle_pending (env : Env) (hni : idle env = false) (s : State E) (hh : isHandler s = true)
     (hc : (pass env s).closed = false) :
     ∃ now' w, handleTurn env s = nextState env s now' true w := by
   have hr : handlerReasons.contains (cfgOf env s).reason = true := hh
@@ -109,12 +109,14 @@ theorem open_handle_pending (env : Env) (s : State E) (hh : isHandler s = true)
         unfold pass at hc
         rw [this] at hc
         cases hc
+    rcases hm with hm | hm
+    · rw [hni] at hm; cases hm
     have hnil := minDelay_none _ hm
     unfold pass at hnil hc
     rw [cycle_main _ _ _ _ _ hr hne] at hnil hc
     exact delays_ne_nil _ _ _ hc hnil
 
-theorem open_next (env : Env) (s : State E) (hp : s.pending = true) (hg : s.gone = false)
+theorem open_next (env : Env) (hni : idle env = false) (s : State E) (hp : s.pending = true) (hg : s.gone = false)
     (ha : adjusting env s = false) (hpm : env.prematch = true)
     (hh : isHandler s = true) (hc : (pass env s).closed = false) :
     ∃ now' w, loopStep env s = nextState env s now' true w := by
@@ -145,7 +147,7 @@ theorem open_next (env : Env) (s : State E) (hp : s.pending = true) (hg : s.gone
     cases hdl : (pass env s).delays with
     | nil => exact hd hdl
     | cons a as => simp [hdl] at hrel
-  · obtain ⟨now', w, hx⟩ := open_handle_pending env s hh hc
+  · obtain ⟨now', w, hx⟩ := open_handle_pending env hni s hh hc
     exact ⟨now', w, by rw [h, hx]⟩
 
 
@@ -158,7 +160,7 @@ theorem noop_reason_str (env : Env) (s : State E) (h : (causeOf s).reason = .noo
 /-- When a turn of the loop ends with no event pending on an object that is not being deleted and that
     the framework is not blind to: the last-handled state is the essence, nothing initial is
     outstanding, no owned progress record is left, and the finalizer needs no adjustment. -/
-theorem quiescent_after_step (env : Env) (s : State E) (hp : s.pending = true) (hg : s.gone = false)
+theorem quiescent_after_step (env : Env) (hni : idle env = false) (s : State E) (hp : s.pending = true) (hg : s.gone = false)
     (hpm : env.prematch = true) (hmk : s.marked = false)
     (hq : (loopStep env s).pending = false) :
     (loopStep env s).base = some s.ess ∧
@@ -195,7 +197,7 @@ theorem quiescent_after_step (env : Env) (s : State E) (hp : s.pending = true) (
         exact ⟨by simp [nextState, hc], by simp [nextState, hc], hnone, hg, hmk, hadjN _ _ _⟩
       · have hc' : (pass env s).closed = false := by simpa using hc
         by_cases hh : isHandler s = true
-        · obtain ⟨now', w, hx⟩ := open_handle_pending env s hh hc'
+        · obtain ⟨now', w, hx⟩ := open_handle_pending env hni s hh hc'
           rw [h, hx] at hq; cases hq
         · have hh' : isHandler s = false := by simpa using hh
           obtain ⟨hr, h1, h2⟩ := not_handler_noop s hmk hh'
@@ -253,7 +255,7 @@ theorem settled_event_no_write (env : Env) (t : State E) (hb : t.base = some t.e
 
 /-- a turn on a marked object either keeps it marked, blocked and pending — or ends with the own
     finalizer removed (and the object gone unless somebody else's finalizer holds it) -/
-theorem marked_step (env : Env) (s : State E) (hp : s.pending = true) (hg : s.gone = false)
+theorem marked_step (env : Env) (hni : idle env = false) (s : State E) (hp : s.pending = true) (hg : s.gone = false)
     (hmk : s.marked = true) (hbl : s.blocked = true) :
     ((loopStep env s).pending = true ∧ (loopStep env s).gone = false ∧ (loopStep env s).marked = true ∧
       (loopStep env s).blocked = true) ∨
@@ -275,7 +277,7 @@ theorem marked_step (env : Env) (s : State E) (hp : s.pending = true) (hg : s.go
       cases hc : (pass env s).closed
       · rfl
       · have := hcm hc; rw [hmk] at this; cases this
-    obtain ⟨now', w, hx⟩ := open_handle_pending env s hh hc
+    obtain ⟨now', w, hx⟩ := open_handle_pending env hni s hh hc
     rw [h, hx]
     exact ⟨rfl, hg, hmk, hbl⟩
 
@@ -362,28 +364,29 @@ theorem after_closing (env : Env) (s : State E) (hp : s.pending = true) (hg : s.
 
 /-! ### the invocations of the following turns, and C02's pass sequence -/
 
-def toSteps : List (Tick × Tick × (Id → Nat → Outcome)) → List C02.Step
+def toSteps (env : Env) : List (Tick × List Id) → List C02.StepV
   | [] => []
-  | (a, b, x) :: rest => ⟨a, b, x⟩ :: toSteps rest
+  | (a, l) :: rest => ⟨a, a, env.exec, l, env.limits, env.lifecycle⟩ :: toSteps env rest
 
-theorem invs_eq (env : Env) (hpm : env.prematch = true) (n : Nat) :
+theorem invs_eq (env : Env) (hni : idle env = false) (hpm : env.prematch = true) (n : Nat) :
     ∀ (s : State E), s.pending = true → s.gone = false → adjusting env s = false → isHandler s = true →
-      invsOf env n s = invokedSeq (cfgOf env s) s.P (toSteps (stepsOf env n s)) := by
+      invsOf env n s = invokedSeqV env.owned (C14.reasonStr (causeOf s).reason) s.P (toSteps env (stepsOf env n s)) := by
   induction n with
   | zero => intro s _ _ _ _; rfl
   | succ n ih =>
     intro s hp hg ha hh
-    simp only [invsOf, stepsOf, toSteps, invokedSeq]
+    simp only [invsOf, stepsOf, toSteps, invokedSeqV]
     show (pass env s).invoked :: _ = (pass env s).invoked :: _
     congr 1
     cases hc : (pass env s).closed
     · have hc2 : (cycle (cfgOf env s) s.P s.now s.now env.exec).closed = false := hc
-      simp only [hc2, Bool.false_eq_true, if_false]
-      obtain ⟨now', w, h⟩ := open_next env s hp hg ha hpm hh hc
-      have hcz : causeOf (nextState env s now' true w) = causeOf s :=
-        causeOf_congr s _ (by simp [nextState, hc]) rfl rfl (by simp [nextState, hc]) rfl rfl
-      have hcfg : cfgOf env (loopStep env s) = cfgOf env s := by rw [h]; unfold cfgOf; rw [hcz]
-      have hh' : isHandler (loopStep env s) = true := by rw [h]; unfold isHandler; rw [hcz]; exact hh
+      have hc3 : (cycle (cfgAt env.owned (C14.reasonStr (causeOf s).reason)
+          ⟨s.now, s.now, env.exec, selOf env s, env.limits, env.lifecycle⟩) s.P s.now s.now env.exec).closed = false := hc
+      simp only [hc3, Bool.false_eq_true, if_false]
+      obtain ⟨now', w, h⟩ := open_next env hni s hp hg ha hpm hh hc
+      have hcz : causeOf (loopStep env s) = causeOf s := by
+        rw [h]; exact causeOf_congr s _ (by simp [nextState, hc]) rfl rfl (by simp [nextState, hc]) rfl rfl
+      have hh' : isHandler (loopStep env s) = true := by unfold isHandler; rw [hcz]; exact hh
       have hp' : (loopStep env s).pending = true := by rw [h]; rfl
       have hg' : (loopStep env s).gone = false := by rw [h]; exact hg
       have ha' : adjusting env (loopStep env s) = false := by
@@ -392,9 +395,22 @@ theorem invs_eq (env : Env) (hpm : env.prematch = true) (n : Nat) :
               (!(env.prematch && env.changeReq) && s.blocked)) = false
         rw [← adjusting_eq]; exact ha
       have hP : (loopStep env s).P = (cycle (cfgOf env s) s.P s.now s.now env.exec).P' := by rw [h]; rfl
-      rw [ih (loopStep env s) hp' hg' ha' hh', hcfg, hP]
-    · have hc2 : (cycle (cfgOf env s) s.P s.now s.now env.exec).closed = true := hc
-      simp [hc2]
+      rw [ih (loopStep env s) hp' hg' ha' hh', hcz, hP]
+      rfl
+    · have hc3 : (cycle (cfgAt env.owned (C14.reasonStr (causeOf s).reason)
+          ⟨s.now, s.now, env.exec, selOf env s, env.limits, env.lifecycle⟩) s.P s.now s.now env.exec).closed = true := hc
+      simp [hc3]
+
+theorem toSteps_sub (env : Env) (wf : WF env) (k : Nat) :
+    ∀ (t : State E), ∀ st ∈ toSteps env (stepsOf env k t), ∀ i ∈ st.selected, i ∈ env.owned := by
+  induction k with
+  | zero => intro t st h; simp [stepsOf, toSteps] at h
+  | succ k ih =>
+    intro t st h i hi
+    simp only [stepsOf, toSteps, List.mem_cons] at h
+    rcases h with rfl | h
+    · exact selOf_sub env wf t i hi
+    · exact ih _ st h i hi
 
 omit [DecidableEq E] in
 theorem applyEdits_fields (es : List E) : ∀ (s : State E),
@@ -440,5 +456,20 @@ theorem runActs_uniform (env : Env) (wf : WF env) (acts : List (Act E)) :
     intro s h
     simp only [runActs, List.foldl_cons]
     exact ih _ (act_uniform env wf s a h)
+
+
+theorem runActsV_uniform (owned : List Id) (hist : List (Env × Act E)) :
+    (∀ ea ∈ hist, WF ea.1 ∧ ea.1.owned = owned) →
+    ∀ s : State E, UniformOn owned s.P → UniformOn owned (runActsV s hist).P := by
+  induction hist with
+  | nil => intro _ s h; exact h
+  | cons ea rest ih =>
+    intro hall s h
+    simp only [runActsV, List.foldl_cons]
+    have h1 := hall ea (by simp)
+    have hstep : UniformOn owned (act ea.1 s ea.2).P := by
+      have := act_uniform ea.1 h1.1 s ea.2 (by rw [h1.2]; exact h)
+      rw [h1.2] at this; exact this
+    exact ih (fun x hx => hall x (by simp [hx])) _ hstep
 
 end Kopf.C03
